@@ -508,3 +508,10 @@ for _o in OBS:
 for _o in OBS:
     if _o["name"].startswith("fen_rank_") or _o["name"].startswith("fen_fields_"):
         _o["props"] = _o["props"] + ["C20"]    # the `Fen:` line of `show` is Game::fen(): "FEN line agrees with the game"
+
+# thorough-only extras: longer strings
+ob("c12_exact_7_bytes", "chess::move_struct::verif_move::c12_exact_7_bytes", ["C12"],
+   "forall position, forall 7-byte ASCII string: never read as an acceptable move", _F12, tier="thorough", timeout=900)
+ob("fen_side_4", "chess::verif_chess::fen::fen_side_4", ["C17"], "side field, all 4-byte ASCII strings: rejected", _F17, tier="thorough", timeout=900)
+ob("fen_castling_6", "chess::verif_chess::fen::fen_castling_6", ["C17"], "castling field, all 6-byte ASCII strings: rejected", _F17, tier="thorough", timeout=1200)
+ob("fen_ep_4", "chess::verif_chess::fen::fen_ep_4", ["C17", "C15"], "e.p. field, all 4-byte ASCII strings: rejected, no panic", _F17, tier="thorough", timeout=900)
